@@ -89,8 +89,26 @@ def digest(v):
     return hashlib.sha1(_dig(v).encode()).hexdigest()[:16]
 
 
+# probe atoms of the laboratory (set by state_lazy before the pool forks): `mutate` reports which of them
+# serve the very object that was marked, found without triggering any load
+PROBE_KEYS = []
+
+
 class Child:
     """interprets events inside the forked child"""
+
+    def peek(self, T, key, attr):
+        """the object served for (atom, attr) if it is stored on an instance of the delegation chain, else None
+        (no property is triggered)"""
+        x = self.atom(T, key)
+        while True:
+            if isinstance(type(x).__dict__.get(attr), property):
+                return None
+            if attr in x.__dict__:
+                return x.__dict__[attr]
+            if isinstance(x, self.core.Element):
+                return None
+            x = x.element
 
     def __init__(self):
         import periodictable as pt
@@ -186,7 +204,8 @@ class Child:
                     v.ptv_mut = tuple(sorted(set(getattr(v, "ptv_mut", ())) | {ev[4]}))
                 else:
                     return ["exc", "Immutable"]
-                return ["ok", src]
+                shared = [list(k) for k in PROBE_KEYS if tuple(k) != tuple(ev[2]) and self.peek(ev[1], k, ev[3]) is v]
+                return ["ok", src, shared]
             return self.outcome(mut)
         if k == "digest":
             out = []
